@@ -144,7 +144,25 @@ func (t *threadCtx) baseSources(e ast.Expr, depth int, out map[string]bool) {
 		// of the document a (transitive) loader works on
 		if c.isSpecFunc(x, "normalizeBase") && len(x.Args) == 1 {
 			if p, ok := c.apath(x.Args[0]); ok && len(p.Steps) >= 2 && lastStep(p) == "RelativeBase" && p.Root != nil && isNamed(derefType(p.Root.Type()), c.Types, t.fam.loader.Obj().Name()) {
-				out["update"] = true
+				// ... which is the base switch only where the loader is known to have changed: all loaders share one
+				// options value, so without that test the location read is that of the last document visited by
+				// anyone, not of the current one
+				switched := false
+				for _, cl := range c.literalsAt(t.fd, x) {
+					be, isB := unparen(cl.e).(*ast.BinaryExpr)
+					if !isB || !(be.Op == token.NEQ && !cl.neg || be.Op == token.EQL && cl.neg) {
+						continue
+					}
+					tx, ty := c.typeOf(be.X), c.typeOf(be.Y)
+					if tx != nil && ty != nil && isNamed(derefType(tx), c.Types, t.fam.loader.Obj().Name()) && isNamed(derefType(ty), c.Types, t.fam.loader.Obj().Name()) {
+						switched = true
+					}
+				}
+				if switched {
+					out["update"] = true
+					return
+				}
+				out["?the shared options' RelativeBase read without testing that the loader changed"] = true
 				return
 			}
 		}
@@ -371,7 +389,7 @@ func ruleSwitchOnFollow(c *Ctx) {
 		return
 	}
 	isFollow := func(g *types.Func) bool {
-		if g == fam.resolveRef {
+		if g == fam.resolveRef || c.isResolverWrapper(fam, g) {
 			return true
 		}
 		for _, h := range c.staticCallees(g) {
